@@ -302,6 +302,7 @@ type State struct {
 	symStrN int
 	fuel    int
 	mergeN  int
+	guards  []guard
 	assumes int
 	hardOps int
 }
